@@ -17,6 +17,7 @@ def correspond(ctx, name, cases_text, precond="ruiz", backends=("dense",), timeo
     compared against the same model outputs.  returns dict backend -> (ok, diffs, impl_obs), and model_obs"""
     cf = os.path.join(ctx.work, name + ".cases")
     open(cf, "w").write(cases_text)
+    if not ctx.quick(): timeout = max(timeout, 5000)
     built = vlib.build_many(ctx, [build_impl(ctx, b, precond) for b in backends])
     model, msg2 = vlib.build_model(ctx, "fast")
     res = {}
